@@ -458,8 +458,9 @@ func ruleStorageErrDiscipline(w *World, r *Run, rule string) {
 				key := root + " ∘ sql | error of " + short(ev.Callee) + " not dropped"
 				k, isNil, _ := nilFact(s, er)
 				if last.Kind == "nil" {
-					if k && !isNil && strings.HasSuffix(ev.Callee, ").Scan") {
-						// the one error that is an answer, not a failure: no row for this log (first use)
+					if !(k && isNil) && strings.HasSuffix(ev.Callee, ").Scan") {
+						// the one error that is an answer, not a failure: no row for this log (first use); being sql.ErrNoRows
+						// implies being non-nil, whether or not the code tested that first
 						if _, nr := noRowsFact(s); nr {
 							r.Pass(rule, key, w.pos(ev.Pos), "")
 							continue
